@@ -391,6 +391,33 @@ Section SigAlgProofs.
   Qed.
 End SigAlgProofs.
 
+(* the two sums, hence the specification, do not depend on the order of the entries *)
+From Coq Require Import Sorting.Permutation.
+Section Order.
+  Variable F : Type.
+  Variables (f0 f1 : F) (fadd fmul fsub : F -> F -> F) (fopp : F -> F).
+  Variable feqb : F -> F -> bool.
+  Hypothesis Fth : ring_theory f0 f1 fadd fmul fsub fopp (@eq F).
+  Add Ring Fring2 : Fth.
+
+  Lemma ag_sums_perm : forall (a b : list (ag_item F)), Permutation a b -> forall i,
+    ag_sigsum F f0 fadd a i = ag_sigsum F f0 fadd b i /\
+    ag_pairsum F f0 f1 fadd fmul a i = ag_pairsum F f0 f1 fadd fmul b i.
+  Proof.
+    induction 1 as [|x l l' _ IH|x y l|l l' l'' _ IH1 _ IH2]; intro i.
+    - split; reflexivity.
+    - destruct (IH i) as [A B]. cbn [ag_sigsum ag_pairsum]. unfold sg_add. rewrite A, B. split; reflexivity.
+    - cbn [ag_sigsum ag_pairsum]. unfold sg_add. split; ring.
+    - destruct (IH1 i), (IH2 i). split; congruence.
+  Qed.
+
+  Lemma ag_spec_perm : forall n (a b : list (ag_item F)), Permutation a b ->
+    ag_spec F f0 f1 fadd fmul feqb n a = ag_spec F f0 f1 fadd fmul feqb n b.
+  Proof.
+    intros n a b P. unfold ag_spec. apply sg_eqb_ext; intro i; destruct (ag_sums_perm a b P i); assumption.
+  Qed.
+End Order.
+
 (* ---------- the same statements with the assumptions on the scalars bundled (sg_scalars) ---------- *)
 Section Bundled.
   Variable F : Type.
@@ -451,6 +478,18 @@ Section Bundled.
   Proof.
     unbundle. intros n bs bs' items H1 H2 Hne.
     rewrite !(ag_run_is_spec F f0 f1 fadd fmul fsub fopp feqb R n) by assumption. reflexivity.
+  Qed.
+
+  (* the verdict is a function of the multiset of entries: any order of the Aggregate calls, any
+     batch size *)
+  Lemma sgb_agg_order_irrelevant : forall n bs bs' items items', (0 < bs)%nat -> (0 < bs')%nat ->
+    items <> [] -> Permutation items items' -> run n bs items = run n bs' items'.
+  Proof.
+    unbundle. intros n bs bs' items items' H1 H2 Hne P.
+    assert (Hne' : items' <> []) by (intro Z; subst; apply Permutation_sym, Permutation_nil in P; contradiction).
+    rewrite (ag_run_is_spec F f0 f1 fadd fmul fsub fopp feqb R n bs items H1 Hne).
+    rewrite (ag_run_is_spec F f0 f1 fadd fmul fsub fopp feqb R n bs' items' H2 Hne').
+    rewrite (ag_spec_perm F f0 f1 fadd fmul fsub fopp feqb R n items items' P). reflexivity.
   Qed.
 
   (* soundness when at most one signature is in doubt *)
